@@ -5,7 +5,7 @@ import re
 from fractions import Fraction
 
 from ..common import Check, coq_eval, harness, harness1
-from ..translate import gen_pratt, gen_doc_prec, gen_sql_strength, gen_std_sql, gen_expand, gen_dialect_feat
+from ..translate import gen_pratt, gen_doc_prec, gen_sql_strength, gen_std_sql, gen_expand, gen_dialect_feat, gen_date_format
 from . import c02_gen as G
 
 TRUSTED = [
@@ -276,7 +276,7 @@ def run():
     ck = Check("C02", level="proof")
     tinfo = {"pratt": gen_pratt.generate(), "doc": gen_doc_prec.generate(), "strength": gen_sql_strength.generate(),
              "stdsql": gen_std_sql.generate(), "expand": gen_expand.generate(),
-             "dialect_feat": gen_dialect_feat.generate()}      # C07's translator, read-only: has_concat_function per dialect
+             "dialect_feat": gen_dialect_feat.generate(), "date_format": gen_date_format.generate()}      # C07's translator, read-only: has_concat_function per dialect
     terr = {k: v["error"] for k, v in tinfo.items() if "error" in v}
     if terr:
         ck.coverage["translator_errors"] = terr
@@ -295,6 +295,7 @@ def run():
     t0 = time.time(); S.stream_fstring(ck, model_ok); tm["fstring"] = round(time.time() - t0, 1)
     t0 = time.time(); S.stream_fncall(ck, model_ok, tinfo["stdsql"] if "error" not in tinfo["stdsql"] else None); tm["fncall"] = round(time.time() - t0, 1)
     t0 = time.time(); S.stream_fncall_nested(ck, model_ok, tinfo["stdsql"] if "error" not in tinfo["stdsql"] else None); tm["fncall-nested"] = round(time.time() - t0, 1)
+    t0 = time.time(); S.stream_datefmt(ck, model_ok, tinfo["date_format"] if "error" not in tinfo["date_format"] else None); tm["datefmt"] = round(time.time() - t0, 1)
     t0 = time.time(); S.stream_directed(ck); tm["directed"] = round(time.time() - t0, 1)
     ck.coverage["seconds_by_phase"] = tm
     # most informative first (only the first 20 are printed): wrong VALUES, then text differences
